@@ -1,7 +1,7 @@
 """C02 no silent corruption: refusal (R02a/e), propagation (R02b), op results (R02c), header-derived index ranges (R02d)."""
 import re
 from .. import xorrules, chains, callgraph
-from ..vflow import Canon, strip_int_casts, derived_pointers
+from ..vflow import Canon, strip_int_casts, strip_ptr_casts, derived_pointers
 from ..guards import Facts, lower_bound_at
 from ..retval import returns_via_edge
 from ..build import AnalysisBroken
@@ -178,6 +178,48 @@ def run(ctx):
     c01.rule_realign(ctx, P, rb, rc)
     rb.require_min(5); rc.require_min(2)
     # ---------------- R02f premise of the adapters that drop the built-in RS result
+    # ---------------- R02g the index lists the decoders walk have room for their terminator
+    r = ctx.rule('R02g', 'the -1 terminated lists of missing elements have room for every entry they can receive plus the terminator',
+                 'with all m parities (or all k data of a k == m code) erased a list sized for exactly m entries has its terminator written past the allocation')
+    from ..poly import Poly as _Pg
+    def lows_xor(pc_):
+        return {}
+    for fname_, fld_ in (('get_missing_parity', 'm'), ('get_missing_data', 'k')):
+        fg = P.fn(fname_)
+        def need(pc_, a_, fld_=fld_, fg=fg):
+            # at most one entry per element of that kind, plus the terminator
+            cnt = [x for x in pc_.val(a_.ops[0]).atoms()]      # atoms of the size expression (a field of the code descriptor, if any)
+            fldatoms = {a for i_ in fg.insts() if i_.op == 'load' for a in pc_.val(i_.res).atoms() if a.endswith('.' + fld_)}
+            base = _Pg.atom(sorted(fldatoms)[0]) if fldatoms else None
+            return (base + _Pg.const(1)) if base is not None else _Pg.const(33)
+        shared.rule_list_capacity(ctx, P, r, fname_, ('@malloc', '@calloc'), need, 'list of missing ' + ('parity' if fld_ == 'm' else 'data') + ' elements', lambda pc_: {a: 0 for a in []})
+    fr_ = P.fn('liberasurecode_reconstruct_fragment')
+    for fname_ in ('liberasurecode_decode', 'liberasurecode_reconstruct_fragment'):
+        fg = P.fn(fname_)
+        def need2(pc_, a_, fg=fg):
+            # only the buffer that is handed to get_fragment_partition as the list of missing indexes: up to k + m entries
+            gp = [i_ for i_ in fg.insts() if i_.op == 'call' and i_.callee == '@get_fragment_partition']
+            if not gp or strip_ptr_casts(fg, gp[0].ops[-1]) != a_.res:
+                return None
+            return pc_.val(gp[0].ops[0]) + pc_.val(gp[0].ops[1]) + _Pg.const(1)
+        def lows2(pc_, fg=fg):
+            gp = [i_ for i_ in fg.insts() if i_.op == 'call' and i_.callee == '@get_fragment_partition']
+            lo = {}
+            if gp:
+                for a in pc_.val(gp[0].ops[0]).atoms():
+                    lo[a] = 1                     # k >= 1
+                for a in pc_.val(gp[0].ops[1]).atoms():
+                    lo.setdefault(a, 0)           # m >= 0
+            return lo
+        shared.rule_list_capacity(ctx, P, r, fname_, ('@alloc_and_set_buffer', '@alloc_zeroed_buffer', '@malloc', '@calloc'), need2, 'list of missing fragment indexes', lows2)
+    r.require_min(4)
+
+    # ---------------- R02h adapters forward
+    r = ctx.rule('R02h', 'the adapters of the built-in codes forward encode / decode / reconstruct to the plug-in on every path and leave the buffers alone',
+                 'a shortcut in an adapter returns success with fragments nobody decoded, or decodes with assumptions the coder does not make')
+    shared.rule_forwarders(ctx, P, r)
+    r.require_min(6)
+
     r = ctx.rule('R02f', 'built-in RS decode / reconstruct refuse only when more than m fragments are missing (premise for the adapter not propagating their result)',
                  'the adapter returns 0 whatever the built-in code reports: a refusal at exactly m missing becomes success with an untouched zero-filled buffer')
     from ..poly import PolyCtx, Poly
